@@ -120,7 +120,7 @@ pub(crate) fn show(s: &Suggestion) -> Value {
 /// Executes one history.  `{"user_dir": dir, "files": {name: content}, "config": {...}, "events": [...]}`
 /// events: {"key": "a"|code, "mod": 0, "sel": 0} | {"type": "text", "sel": 0} | {"backspace": false} |
 ///         {"commit": i} | "finish" | {"update": {options / layout}} | {"write": [name, content]} |
-///         {"remove": name} | "ongoing" | "new_context"
+///         {"remove": name} | "ongoing" | "new_context" | {"other_context": {"config": {...}, "type": "text"}}
 pub(crate) fn run_history(h: &Value) -> Value {
     if let Some(d) = h["user_dir"].as_str() {
         std::env::set_var("XDG_DATA_HOME", d);
@@ -191,6 +191,14 @@ pub(crate) fn run_history(h: &Value) -> Value {
                 json!({"content": std::fs::read_to_string(format!("{d}/openbangla-keyboard/{}", n.as_str().unwrap())).ok()})
             } else if ev.get("note").is_some() {
                 json!("note")
+            } else if let Some(oc) = ev.get("other_context") {
+                // a second, independent context (own configuration) composes a text and is dropped again
+                let ocfg = make_config(&oc["config"]);
+                let mut other = RitiContext::new_with_config(&ocfg);
+                let mut last = Value::Null;
+                for c in oc["type"].as_str().unwrap().chars() { last = show(&other.get_suggestion_for_key(keycode(&json!(c.to_string())), 0, 0)); }
+                other.finish_input_session();
+                json!({"other_context": last})
             } else if ev == "new_context" {
                 ctx = RitiContext::new_with_config(&cfg);
                 json!("new_context")
